@@ -161,15 +161,18 @@ WellFormed(lat) ==
 (* entries are among the W most probable (plus ties) and no postponed      *)
 (* entry is more probable than an expanded one.                            *)
 (***************************************************************************)
-SelectionSoundLayer(L, W, now) ==
+SelectionSoundLayerG(L, W, now, exact) ==
   LET live == Live(L)
       X == {j \in 1..Len(live) : live[j].delayed <= now}
       P == {j \in 1..Len(live) : live[j].delayed > now}
-  IN /\ \A p \in P : \A x \in X : live[p].lp < live[x].lp       \* exact ties are expanded together
+  IN /\ \A p \in P : \A x \in X : (IF exact THEN live[p].lp < live[x].lp     \* exact ties are expanded together
+                                       ELSE live[p].lp <= live[x].lp)   \* (values rounded to fixed point: ties unknowable)
      /\ W # NoW => \A x \in X : Cardinality({j \in 1..Len(live) : live[j].lp > live[x].lp}) < W
      /\ W = NoW => P = {}
-SelectionSound(lat, W, now) ==
-  \A c \in 1..Len(lat) : \A k \in 1..Len(lat[c]) : SelectionSoundLayer(lat[c][k], W, now)
+SelectionSoundLayer(L, W, now) == SelectionSoundLayerG(L, W, now, TRUE)
+SelectionSoundG(lat, W, now, exact) ==
+  \A c \in 1..Len(lat) : \A k \in 1..Len(lat[c]) : SelectionSoundLayerG(lat[c][k], W, now, exact)
+SelectionSound(lat, W, now) == SelectionSoundG(lat, W, now, TRUE)
 
 \* order on canonical results: longer match first, then (for complete matches) probability
 CanonLeq(a, b, n) == a[1] <= b[1] /\ ((a[1] = n - 1 /\ b[1] = n - 1) => a[2] <= b[2])
